@@ -866,3 +866,262 @@ def c10(prop, tier, replay):
                 "short-transfer / interrupt patterns down to one byte per call; distinct = (session, fault kind, k); all non-trivial",
                 max(2, nrun), {"evaluations": max(1, nrun), "sessions": len(cases),
                                "samples": [{"kind": c["kind"]} for c in cases[:8]]})
+
+
+# ----------------------------------------------------------------------------------------
+# C06 / C07 / C08: adversarial inputs, shared execution (cached per source tree, seed and tier)
+
+def tree_hash():
+    h = hashlib.sha256()
+    for root in ("/repo/src", os.path.join(HARNESS, "src"), SPEC, os.path.join(VERIF, "bin")):
+        for dp, dn, fn in sorted(os.walk(root)):
+            dn.sort()
+            for f in sorted(fn):
+                if f.endswith((".rs", ".tla", ".cfg", ".py", ".toml")) or "." not in f:
+                    p = os.path.join(dp, f)
+                    try:
+                        h.update(p.encode())
+                        h.update(open(p, "rb").read())
+                    except OSError:
+                        pass
+    for p in ("/repo/Cargo.toml", "/repo/Cargo.lock"):
+        h.update(open(p, "rb").read())
+    return h.hexdigest()[:24]
+
+
+def robust_bases(tier, wd, rng):
+    stats, bases = [], []
+    st, pl = gen_mc("MC_Layout", "MC_Layout_plain1", wd, tier, coverage=False)
+    stats.append(st)
+    b0 = [c for c in pl if len(c["ops"]) == 0][0]
+    bases.append({"file": b0["file"], "fields": b0["fields"], "kind": "spec-rendered two-track movie"})
+    sw = [c for c in pl if len(c["ops"]) == 1 and c["ops"][0]["op"] == "swap" and c["ops"][0]["path"] == []][0]
+    bases.append({"file": sw["file"], "fields": sw["fields"], "kind": "spec-rendered, media data before movie header"})
+    st, fr = gen_mc("MC_Layout", "MC_Layout_frag1", wd, tier, coverage=False)
+    stats.append(st)
+    f0 = [c for c in fr if len(c["ops"]) == 0][0]
+    bases.append({"file": f0["file"], "fields": f0["fields"], "kind": "spec-rendered fragmented movie"})
+    st, sp = gen_mc("MC_Frag", "MC_Frag_q", wd, tier, coverage=False)
+    stats.append(st)
+    s0 = [c for c in sp if c["delivery"] == "split" and c["ntracks"] == 2 and c["nfrag"] == 2 and c["durMode"] == "per" and c["ctsMode"] == "v0"][0]
+    bases.append({"file": s0["file"], "init": s0["init"], "fields": [], "kind": "spec-rendered media segment against its init segment"})
+    st, me = gen_mc("MC_Meta", "MC_Meta_q", wd, tier, coverage=False)
+    stats.append(st)
+    m0 = [c for c in me if c["shape"] == "mdir" and c["title"] != "absent" and c["year"] == "text2008" and c["poster"] != "absent" and c["unk"] == "between"][0]
+    bases.append({"file": m0["file"], "fields": m0["fields"], "kind": "spec-rendered movie with iTunes metadata"})
+    m1 = [c for c in me if c["shape"] == "mdta" and c["title"] != "absent"][0]
+    bases.append({"file": m1["file"], "fields": m1["fields"], "kind": "spec-rendered movie, metadata with unknown handler"})
+    bases.append({"file": canned("minimal.mp4"), "fields": [], "kind": "canned minimal.mp4"})
+    bases.append({"file": canned("minimal_fragment.m4s"), "init": canned("minimal_init.mp4"), "fields": [], "kind": "canned fragment against canned init"})
+    bases.append({"file": canned("extended_audio_object_type.mp4"), "fields": [], "kind": "canned extended_audio_object_type.mp4", "region": [0, 64]})
+    # muxer outputs cover the hevc / vp9 / ttxt / aac sample entries
+    rp, fp = os.path.join(wd, "mux-cases.ndjson"), os.path.join(wd, "mux-files.ndjson")
+    mp4v(["mux-gen", str(seed() + 5), "60", rp])
+    want, chosen = {"hevc", "vp9", "ttxt", "aac", "avc"}, []
+    for c in read_ndjson(rp):
+        kinds = {x["conf"]["kind"] for x in c["calls"] if x["op"] == "add"}
+        nw = sum(1 for x in c["calls"] if x["op"] == "write")
+        if kinds & want and 1 <= nw <= 30:
+            want -= kinds
+            chosen.append(c)
+        if not want:
+            break
+    write_ndjson(rp, chosen)
+    mp4v(["mux-file", rp, fp])
+    for f in read_ndjson(fp):
+        if len(f["file"]) < 6000:
+            bases.append({"file": f["file"], "fields": [], "kind": "muxer output " + f["id"]})
+    if tier == "thorough":
+        bbb = canned("big_buck_bunny_metadata.m4v")
+        bases.append({"file": bbb, "fields": [], "kind": "canned big_buck_bunny_metadata.m4v", "region": [0, 2048]})
+    for i, b in enumerate(bases):
+        n = len(b["file"])
+        lo, hi = b.pop("region", [0, min(n, 4096)])
+        quick = tier == "quick"
+        if not b["fields"]:
+            # no field map from the specification: every 4-aligned word of the region
+            b["fields"] = [[o, 4] for o in range(lo, max(lo, hi - 4), 4)]
+        b["plan"] = {"seed": seed() * 1000 + i, "region": [lo, hi],
+                     "single": {"widths": [1, 4] if quick else [1, 2, 4, 8], "stride": 1},
+                     "pairs": 2500 if quick else 60000, "havoc": 2500 if quick else 60000}
+    return stats, bases
+
+
+def run_robust_base(idx, base, wd, profile):
+    bp = os.path.join(wd, "base-%d.ndjson" % idx)
+    tp = os.path.join(wd, "robust-%s-%d.ndjson" % (profile, idx))
+    write_ndjson(bp, [base])
+    exe = build_harness(profile)
+    rc, out = run([exe, "robust-run", bp, tp], timeout=5400)
+    crashed = rc != 0
+    if crashed:
+        # the worker died (abort / stack overflow / kill): find the input it was executing
+        rc2, out2 = run([exe, "robust-run", bp, tp + ".each"], timeout=5400, env={"MP4V_EACH": "1"})
+        last = [l for l in out2.split("\n") if l.startswith("EACH ")][-1:] or ["?"]
+        with open(tp, "a") as f:
+            f.write(json.dumps({"e": "reset", "id": "base-%d" % idx}) + "\n")
+            f.write(json.dumps({"e": "crash", "signal": rc, "last": last[0]}) + "\n")
+    st = {}
+    for l in out.strip().split("\n"):
+        if l.startswith("{"):
+            st = json.loads(l)
+    r = tlc_trace("Trace_Total", tp, wd, timeout=1800)
+    if not r["accepted"]:
+        raise ToolError("Trace_Total did not consume the trace of base %d:\n%s" % (idx, r["raw_tail"][:2000]))
+    cases = {}
+    if r["fails"]:
+        # inputs of the anomalous executions, for replay files
+        for ev in read_ndjson(tp):
+            if ev.get("e") == "case":
+                cases[json.dumps(ev["what"])] = ev
+    return {"idx": idx, "profile": profile, "cases": st.get("cases", 0), "events": r["distinct"], "fails": r["fails"],
+            "inputs": cases, "crashed": crashed}
+
+
+def robust_suite(tier):
+    key = "%s-%s-%d" % (tree_hash(), tier, seed())
+    cdir = os.path.join(OUT, "cache")
+    os.makedirs(cdir, exist_ok=True)
+    cp = os.path.join(cdir, "robust-" + key + ".json")
+    if os.path.exists(cp) and not os.environ.get("VERIF_NOCACHE"):
+        log("[robust suite: reusing the run of the identical source tree %s]" % key)
+        return json.load(open(cp))
+    t0 = time.time()
+    rng = random.Random(seed())
+    wd = workdir("robust-" + tier)
+    stats, bases = robust_bases(tier, wd, rng)
+    # leg A: the parsing-loop model (progress, linear work, bounded allocation, termination)
+    r = tlc_mc("Parse", "MC_Parse", wd, workers=4, timeout=600)
+    if r["violated"] or not r["ok"]:
+        raise ToolError("Parse model: %s\n%s" % (r["violated"], r["tail"][-2000:]))
+    stats.append({"cfg": "MC_Parse", "states": r["states"], "distinct": r["distinct"], "depth": r["depth"], "cases": 0,
+                  "actions": r["actions"], "wall": round(r["wall"], 1)})
+    build_harness("debug")
+    build_harness("release")
+    jobs = [(i, b, p) for p in ("debug", "release") for i, b in enumerate(bases)]
+    with ThreadPoolExecutor(max_workers=12) as ex:
+        rs = list(ex.map(lambda j: run_robust_base(j[0], j[1], wd, j[2]), jobs))
+    res = {"stats": stats, "bases": [{"kind": b["kind"], "len": len(b["file"]), "fields": len(b["fields"]), "plan": {k: v for k, v in b["plan"].items()}} for b in bases],
+           "executions": sum(x["cases"] for x in rs), "events": sum(x["events"] for x in rs), "fails": [], "wall": time.time() - t0}
+    for x in rs:
+        for f in x["fails"]:
+            f = dict(f)
+            f["base"] = x["idx"]
+            f["profile"] = x["profile"]
+            if f["what"] not in ("panic in the reader API (see the case events)", "operation budget exceeded (see the case events)") or x["crashed"]:
+                inp = None
+                d = f.get("detail")
+                if isinstance(d, list):
+                    for cand in d:
+                        ev = x["inputs"].get(json.dumps(cand))
+                        if ev:
+                            inp = ev
+                            break
+                f["input"] = {"file": inp["input"], "init": bases[x["idx"]].get("init"), "mode": inp["mode"], "kind": bases[x["idx"]]["kind"],
+                              "what": inp["what"]} if inp else None
+                res["fails"].append(f)
+    json.dump(res, open(cp, "w"))
+    return res
+
+
+def robust_check(prop, tier, replay, level, text_rule):
+    t0 = time.time()
+    known = load_known()
+    if replay:
+        wd = workdir(prop + "-replay")
+        c = json.load(open(replay))
+        base = {"file": c["file"], "kind": "replay", "fields": [], "plan": {"seed": 1, "region": [0, 0], "single": {"widths": [], "stride": 1}, "pairs": 0, "havoc": 0}}
+        if c.get("init"):
+            base["init"] = c["init"]
+        fails = []
+        for p in ("debug", "release"):
+            fails += run_robust_base(0, base, wd, p)["fails"]
+        res = {"fails": [dict(f, input=c, base=0, profile="?") for f in fails], "executions": 2, "events": 2, "stats": [], "bases": [], "wall": 0}
+    else:
+        res = robust_suite(tier)
+    viol, kn = [], []
+    for f in res["fails"]:
+        if f["prop"] != prop:
+            continue
+        k = match_known(prop, f, known)
+        text = "%s %s (base %s, %s build)" % (f["what"], json.dumps(f["detail"])[:300], f.get("base"), f.get("profile"))
+        if k:
+            kn.append(k["what"])
+            continue
+        name = hashlib.sha1(json.dumps(f.get("detail")).encode()).hexdigest()[:10]
+        path = write_replay(prop, "robust-" + name, f.get("input") or {"note": "worker crash; see trace", "detail": f.get("detail")})
+        viol.append((path, text))
+    cov = {"evaluations": max(1, res["executions"]), "distinct_nontrivial": max(2, res["executions"] - 2 * len(res["bases"])),
+           "rule": text_rule, "samples": res["bases"][:12] or [{"replay": True}],
+           "states": max(1, sum(s["distinct"] for s in res["stats"]) + res["events"]),
+           "transitions": max(1, sum(s["states"] for s in res["stats"]) + res["events"]),
+           "traces_validated_against_impl": 2 * len(res["bases"]), "model_runs": res["stats"],
+           "profiles": ["debug (overflow checks)", "release (wrapping)"], "suite_wall_s": round(res["wall"], 1)}
+    write_evidence(prop, tier, level, cov, time.time() - t0, len(viol),
+                   ["TLC / Json / IOUtils", "the budgeted stream and the counting allocator of the harness (observation only)",
+                    "base images and their field maps come from the specification (Movie.tla, Iso!FieldMapOf) or are third-party files"])
+    finish(prop, viol, kn)
+
+
+RULE_ROBUST = ("adversarial inputs: for each base image (spec-rendered plain / media-first / fragmented / init+segment / metadata / unknown-handler "
+               "metadata, canned files, muxer outputs with every sample-entry kind) every byte offset of the header region x widths x boundary values "
+               "{0,1,2,7,8,9,15,16,17,255,256,len-1,len,len+1,2^15,2^31-1,2^31,2^32-1,2^64-1,...}, seeded pairs over the specification's field map, "
+               "and byte-level havoc; each executed through open (or open-as-fragment) and every accessor, in a debug and a release build; "
+               "distinct = distinct mutated inputs (mutations equal to the base are skipped); all but the unmodified bases are non-trivial")
+
+
+@check("C06")
+def c06(prop, tier, replay):
+    robust_check(prop, tier, replay, "exploration", RULE_ROBUST)
+
+
+@check("C07")
+def c07(prop, tier, replay):
+    robust_check(prop, tier, replay, "exploration", RULE_ROBUST + "; measured per execution: stream operations and bytes under a 64n+4096 operation budget, wall-clock guard 3 s")
+
+
+@check("C08")
+def c08(prop, tier, replay):
+    robust_check(prop, tier, replay, "exploration", RULE_ROBUST + "; measured per execution: peak live heap bytes and largest single allocation request")
+
+
+# ----------------------------------------------------------------------------------------
+# C16: code and enumeration mappings over their whole domains
+
+@check("C16")
+def c16(prop, tier, replay):
+    t0 = time.time()
+    wd = workdir(prop + "-" + tier)
+    known = load_known()
+    r = tlc_mc("MC_Enums", "MC_Enums", wd, workers=2, timeout=600, coverage=False)
+    if r["violated"] or not r["ok"] or len(r["cases"]) != 1:
+        raise ToolError("Enums: %s\n%s" % (r["violated"], r["tail"][-2000:]))
+    tp = os.path.join(wd, "tables.json")
+    json.dump(r["cases"][0], open(tp, "w"))
+    trace = os.path.join(wd, "domain-trace.ndjson")
+    mp4v(["domain-run", tp, trace, "1" if (tier == "thorough" or replay) else "0"], profile="release", timeout=3000)
+    res = tlc_trace("Trace_Domain", trace, wd)
+    if not res["accepted"]:
+        raise ToolError("Trace_Domain did not consume the trace:\n" + res["raw_tail"][:2000])
+    evs = [e for e in read_ndjson(trace) if e["e"] == "domain"]
+    viol, kn = [], []
+    for f in res["fails"]:
+        k = match_known(prop, f, known)
+        if k:
+            kn.append(k["what"])
+            continue
+        path = write_replay(prop, "domain-%d" % f["line"], {"detail": f["detail"]})
+        viol.append((path, "%s %s" % (f["what"], json.dumps(f["detail"])[:300])))
+    total = sum(frombig(e["checked"]) for e in evs)
+    cov = {"evaluations": total, "distinct_nontrivial": total,
+           "rule": "every input of the complete finite domain of each mapping (2^32 numeric codes for BoxType, FourCC, handler codes, DataType and 16.16 "
+                   "fixed point; 2^16 language codes, profile/constraint pairs and 8.8 raw values; all u8 for the AAC enumerations; all [a-z]^3 "
+                   "languages), compared with the table exported by TLC from Enums.tla; the FourCC text round trip visits every 61st code in the "
+                   "quick tier and all 2^32 in the thorough tier; every input is distinct and counts",
+           "samples": [{"mapping": e["name"], "checked": frombig(e["checked"]), "mismatches": e["mismatches"]} for e in evs],
+           "states": r["distinct"] + res["distinct"], "transitions": r["states"] + res["states"],
+           "traces_validated_against_impl": 1, "exhaustive": tier == "thorough"}
+    write_evidence(prop, tier, "exploration", cov, time.time() - t0, len(viol),
+                   ["TLC (proves the table-level statements: injectivity, language and fixed-point round trips) and Json/IOUtils",
+                    "the entry-by-entry comparison loop of the harness against the exported tables"])
+    finish(prop, viol, kn)
